@@ -205,18 +205,27 @@ Definition tc_corr (t : tc_table) : bool :=
 (** Tables.ToCSV observed on a whole run, read from its output alone: every
     warning line "REFn: msg" refers to spreadsheet row n (1-based record of the
     output) that exists, is not a blank/separator record and lies in a table
-    below that table's unit row (the record [""; unit; "CI"; ...] nearest above
-    it without a blank record in between); the referenced column of the unit
-    row is the unit (a centre column) or "vs base" (a delta column - then the
-    row is not the table's last record, the summary row) *)
+    below that table's unit row; the referenced column is a centre column (its
+    header in the unit row is the unit) or a delta column (then the row is not
+    the table's last record, the summary row).
+    The unit row is found by the SHAPE of the records, not by what the CSV
+    calls its columns: in the chunk of records above the row (up to the blank
+    separator record) it is the topmost record with an empty first field and a
+    non-empty third field - "key: value" header lines have one field, column-key
+    header records have an empty third field (a column key sits over the centre
+    column, the range column next to it stays empty), data rows lie below the
+    unit row. A delta column is a column that is not headed by the unit and
+    stands two to the right of a column headed by the unit. *)
 Definition is_blank_rec (r : list bytes) : bool := match r with [[]] => true | _ => false end.
-Definition is_unit_rec (r : list bytes) : bool :=
-  match r with f0 :: _ :: f2 :: _ => knil f0 && beq f2 (bs "CI") | _ => false end.
-Fixpoint nearest_unit (before : list (list bytes)) : option (list bytes) :=   (* [before]: records above, nearest first *)
+Definition is_unit_like (r : list bytes) : bool :=
+  match r with f0 :: _ :: f2 :: _ => knil f0 && negb (knil f2) | _ => false end.
+Fixpoint chunk_above (before : list (list bytes)) : list (list bytes) :=   (* [before]: records above, nearest first *)
   match before with
-  | [] => None
-  | r :: l => if is_blank_rec r then None else if is_unit_rec r then Some r else nearest_unit l
+  | [] => []
+  | r :: l => if is_blank_rec r then [] else r :: chunk_above l
   end.
+Definition nearest_unit (before : list (list bytes)) : option (list bytes) :=
+  find is_unit_like (rev (chunk_above before)).
 Definition ref_index (ref : bytes) : nat := fold_left (fun a b => a * 26 + (N.to_nat (bN b) - 64))%nat ref 0%nat - 1.
 Definition tables_warn_ok (recs : list (list bytes)) (w : bytes * nat * bytes) : bool :=
   let '(ref, row, _) := w in
@@ -227,7 +236,8 @@ Definition tables_warn_ok (recs : list (list bytes)) (w : bytes * nat * bytes) :
       let h := field u c in
       let last := match nth_error recs row with None => true | Some r' => is_blank_rec r' end in
       negb (is_blank_rec r) && (1 <=? c)%nat && negb (knil h)
-      && (beq h (field u 1) || (beq h (bs "vs base") && negb last))
+      && (beq h (field u 1)
+          || ((2 <=? c)%nat && beq (field u (c - 2)) (field u 1) && negb last))
   | _, _ => false
   end.
 Definition csv_tables_obs_ok (recs : list (list bytes)) (warn : bytes) : bool :=
@@ -291,7 +301,15 @@ Definition corr_ok (c : case) : bool :=
   | KRowScale tabs => forallb RunC10.rtab_corr tabs
   end.
 
-Definition prop_ok (c : case) : bool :=
+(** [relax = false]: what the property says. [relax = true]: the same except
+    exactly the recorded deviation of the known finding
+    C16_csv_summary_one_row (tag one_row_table): a table with fewer than two
+    rows has a summary record (label "geomean", the geomean and its warnings)
+    in the CSV that the text does not show. Everything else - headers, the row,
+    numbers, deltas, warnings of the data row, cell references, layout - is
+    still demanded of such a table, and [relax] changes nothing for tables
+    with two or more rows. *)
+Definition prop_ok_gen (relax : bool) (c : case) : bool :=
   match c with
   | KTable ops perm obs =>
       match build ops with
@@ -310,14 +328,17 @@ Definition prop_ok (c : case) : bool :=
   | KKeys nf keys nlev levels =>
       forallb (fun k => (length k =? nf)%nat) keys && header_ok nf keys levels
   | KBench tabs => forallb bench_table_ok tabs
-  | KTextCsv tabs => forallb (fun t => text_csv_ok (tc_start t) (tc_text t) (tc_recs t) (tc_warn t)) tabs
+  | KTextCsv tabs => forallb (fun t => text_csv_ok_gen relax (tc_start t) (tc_text t) (tc_recs t) (tc_warn t)) tabs
   | KCsvTables _ recs warn => csv_tables_obs_ok recs warn
-  | KRun fields tabs text recs warn => run_ok fields tabs text recs warn
+  | KRun fields tabs text recs warn => run_ok_gen relax fields tabs text recs warn
   | KRowScale tabs => forallb RunC10.rtab_prop tabs
   end.
 
+Definition prop_ok : case -> bool := prop_ok_gen false.
+Definition known_ok : case -> bool := prop_ok_gen true.
+
 Definition run_case (s : sx) : N :=
   match decode s with
-  | Some c => code_of (corr_ok c) (prop_ok c)
+  | Some c => code_of3 (corr_ok c) (prop_ok c) (known_ok c)
   | None => code_undecodable
   end.
